@@ -98,6 +98,9 @@ def _shard(args):
     return text, len(U.EXH_ALPHABET) ** n, acc, nontriv, samples
 
 
+TOKEN_STARTS = ["a", "b", "1", "*", "/", "(", U.DOT]
+
+
 def exhaustive_plan(max_len):
     plan = []
     for L in range(0, max_len + 1):
@@ -105,8 +108,12 @@ def exhaustive_plan(max_len):
             plan.append(("", L))
         elif L == 5:
             plan += [(c, 4) for c in U.EXH_ALPHABET]
-        else:
+        elif L == 6:
             plan += [(a + b, L - 2) for a in U.EXH_ALPHABET for b in U.EXH_ALPHABET]
+        else:
+            # length >= 7: only the first characters that can begin a token (a string beginning with ^ - 2 or ) is rejected at
+            # its first character, whatever follows; those are covered exhaustively up to length 6)
+            plan += [(a + b, L - 2) for a in TOKEN_STARTS for b in U.EXH_ALPHABET]
     return plan
 
 
@@ -212,7 +219,8 @@ def correspondence(ctx):
         index.append(("stream", k))
     res.nontrivial = set(seen) | {"exh:{}".format(i) for i in range(nontriv_exh)}
     res.exhaustive = True
-    res.rule = ("(1) EVERY string of length <= {} over the 11 characters a b ^ - 1 2 * / ( ) and the dot sign ({} strings, {} accepted): "
+    res.rule = ("(1) EVERY string of length <= {} over the 11 characters a b ^ - 1 2 * / ( ) and the dot sign (at length 7 only those "
+                "beginning with a character that can start a token: a b 1 * / ( dot; {} strings, {} accepted): "
                 "the model must accept exactly the strings the implementation accepts, with the same ordered exponent list; "
                 "(2) random sentences of the property's grammar (1-5 terms, juxtaposition, bracketed groups, all three "
                 "multiplication spellings, repeated symbols), two single-character corruptions of each (insert / delete / replace "
@@ -220,7 +228,7 @@ def correspondence(ctx):
                 "('1/..', '^(p/q)') and junk strings, compared as Rejected or the ordered exponent list. "
                 "non-trivial = accepted by the implementation, or passing the validity regular expression and rejected by a later "
                 "stage (coverage, bracket recursion, builder, evaluator); counted distinct by string").format(
-        max_len, n_exh, n_acc)
+        min(max_len, 6) if max_len >= 7 else max_len, n_exh, n_acc)
     for kind, s, r in cases[:400]:
         if kind == "sentence" and len(res.samples) < 5:
             res.samples.append({"sentence": s, "observed": None if r is None else [[k, str(Fraction(v))] for k, v in r]})
